@@ -187,6 +187,10 @@ func (r *reader) PrecendingCharacter() rune {
 			break
 		}
 	}
+	if i < 0 {
+		// no rune start before the cursor (the source begins with continuation bytes)
+		i = 0
+	}
 	rn, _ := utf8.DecodeRune(r.source[i:])
 	return rn
 }
